@@ -1,7 +1,14 @@
 package main
 
 import (
+	"bytes"
+	"crypto/sha256"
+	"fmt"
 	"go/ast"
+	"go/printer"
+	"go/token"
+	"reflect"
+	"sort"
 	"strings"
 )
 
@@ -117,5 +124,210 @@ func extractC10() *lean {
 		walk(fd.Body, false)
 	}
 	l.def("conflictedFlagReadUnconditional", "Bool", map[bool]string{true: "true", false: "false"}[uncond], uncond)
+	c10More(l)
 	return l
+}
+
+// c10Src renders a node as normalised source text (no comments, whitespace runs collapsed)
+func c10Src(fset *token.FileSet, n interface{}) string {
+	var buf bytes.Buffer
+	if err := printer.Fprint(&buf, fset, n); err != nil {
+		return "<unprintable>"
+	}
+	return strings.Join(strings.Fields(buf.String()), " ")
+}
+
+func c10PairList(ps [][2]string) string {
+	var q []string
+	for _, p := range ps {
+		q = append(q, fmt.Sprintf("(%q, %q)", p[0], p[1]))
+	}
+	return "[" + strings.Join(q, ", ") + "]"
+}
+
+// c10StructFields: (field name, json tag or "") of a struct type declared in f
+func c10StructFields(f *ast.File, name string) [][2]string {
+	var out [][2]string
+	ast.Inspect(f, func(n ast.Node) bool {
+		ts, ok := n.(*ast.TypeSpec)
+		if !ok || ts.Name.Name != name {
+			return true
+		}
+		st, ok := ts.Type.(*ast.StructType)
+		if !ok {
+			return false
+		}
+		for _, fl := range st.Fields.List {
+			tag := ""
+			if fl.Tag != nil {
+				tag = reflect.StructTag(strings.Trim(fl.Tag.Value, "`")).Get("json")
+			}
+			for _, nm := range fl.Names {
+				out = append(out, [2]string{nm.Name, tag})
+			}
+		}
+		return false
+	})
+	return out
+}
+
+// c10More: the sites around the core mechanism — ordering steps, persisted fields, key expressions, in-memory state,
+// who touches the conflicted cache, and a digest of every function the model mirrors.
+func c10More(l *lean) {
+	dir := "vdr/didnuts/didstore/"
+	files := map[string]*ast.File{}
+	fsets := map[string]*token.FileSet{}
+	for _, fn := range []string{"event.go", "writer.go", "store.go", "reader.go", "metadata.go", "merge.go", "finder.go"} {
+		fsets[fn], files[fn] = parseFile(dir + fn)
+	}
+	// event.before: the sequence of "if cond { return v }" steps and the final return
+	var steps []string
+	if fd := funcDecl(files["event.go"], "before"); fd != nil {
+		for _, st := range fd.Body.List {
+			switch x := st.(type) {
+			case *ast.IfStmt:
+				ret := "<not-a-return>"
+				if x.Init == nil && x.Else == nil && len(x.Body.List) == 1 {
+					if r, ok := x.Body.List[0].(*ast.ReturnStmt); ok && len(r.Results) == 1 {
+						ret = c10Src(fsets["event.go"], r.Results[0])
+					}
+				}
+				steps = append(steps, c10Src(fsets["event.go"], x.Cond)+" => "+ret)
+			case *ast.ReturnStmt:
+				steps = append(steps, "return "+c10Src(fsets["event.go"], x.Results[0]))
+			default:
+				steps = append(steps, "<other statement>")
+			}
+		}
+	} else {
+		steps = []string{"before:MISSING"}
+	}
+	l.def("beforeSteps", "List String", leanStrList(steps), steps)
+	eq := "equal:MISSING"
+	if fd := funcDecl(files["event.go"], "equal"); fd != nil {
+		eq = c10Src(fsets["event.go"], fd.Body)
+	}
+	l.def("equalBody", "String", fmt.Sprintf("%q", eq), eq)
+
+	// persisted records: field -> json tag
+	ev := c10StructFields(files["event.go"], "event")
+	l.def("eventFields", "List (String × String)", c10PairList(ev), ev)
+	md := c10StructFields(files["metadata.go"], "documentMetadata")
+	l.def("metadataFields", "List (String × String)", c10PairList(md), md)
+	var sf []string
+	for _, p := range c10StructFields(files["store.go"], "store") {
+		sf = append(sf, p[0])
+	}
+	l.def("storeFields", "List String", leanStrList(sf), sf)
+
+	// every fmt.Sprintf in the package's modelled files: "function: format <- args" (the version-numbered keys)
+	var keys []string
+	for _, fn := range []string{"writer.go", "store.go", "reader.go"} {
+		for _, d := range files[fn].Decls {
+			fd, ok := d.(*ast.FuncDecl)
+			if !ok || fd.Body == nil {
+				continue
+			}
+			ast.Inspect(fd.Body, func(n ast.Node) bool {
+				if c, ok := n.(*ast.CallExpr); ok && c10Src(fsets[fn], c.Fun) == "fmt.Sprintf" {
+					var args []string
+					for _, a := range c.Args {
+						args = append(args, c10Src(fsets[fn], a))
+					}
+					keys = append(keys, fd.Name.Name+": "+strings.Join(args, " <- "))
+				}
+				return true
+			})
+		}
+	}
+	sort.Strings(keys)
+	l.def("sprintfKeys", "List String", leanStrList(keys), keys)
+
+	// who reads or writes the in-memory conflicted cache, and who calls the three cache functions
+	touch := map[string]bool{}
+	for _, fn := range []string{"writer.go", "store.go", "reader.go", "finder.go", "merge.go", "event.go", "metadata.go"} {
+		for _, d := range files[fn].Decls {
+			fd, ok := d.(*ast.FuncDecl)
+			if !ok || fd.Body == nil {
+				continue
+			}
+			ast.Inspect(fd.Body, func(n ast.Node) bool {
+				switch x := n.(type) {
+				case *ast.SelectorExpr:
+					if x.Sel.Name == "conflictedDocuments" {
+						touch[fd.Name.Name+" uses conflictedDocuments"] = true
+					}
+					for _, callee := range []string{"addCachedConflict", "removeCachedConflict", "loadConflictedDocuments"} {
+						if x.Sel.Name == callee {
+							touch[fd.Name.Name+" calls "+callee] = true
+						}
+					}
+				}
+				return true
+			})
+		}
+	}
+	l.def("cacheTouch", "List String", leanStrList(sortedKeys(touch)), sortedKeys(touch))
+
+	// single conditions the model copies
+	cond := func(file, fn, contains string) string {
+		fd := funcDecl(files[file], fn)
+		if fd == nil {
+			return fn + ":MISSING"
+		}
+		var hits []string
+		ast.Inspect(fd.Body, func(n ast.Node) bool {
+			switch x := n.(type) {
+			case *ast.IfStmt:
+				if s := c10Src(fsets[file], x.Cond); strings.Contains(s, contains) {
+					hits = append(hits, "if "+s)
+				}
+			case *ast.AssignStmt:
+				if s := c10Src(fsets[file], x); strings.Contains(s, contains) && !strings.Contains(s, "{") {
+					hits = append(hits, s)
+				}
+			case *ast.ReturnStmt:
+				if s := c10Src(fsets[file], x); strings.Contains(s, contains) {
+					hits = append(hits, s)
+				}
+			}
+			return true
+		})
+		return strings.Join(hits, " ;; ")
+	}
+	one := func(name, v string) { l.def(name, "String", fmt.Sprintf("%q", v), v) }
+	one("docCountCondition", cond("writer.go", "applyFrom", "metadata.Version"))
+	one("deactivatedAssign", cond("writer.go", "applyDocument", "newMeta.Deactivated"))
+	one("isDeactivatedBody", cond("writer.go", "isDeactivated", "return"))
+	one("isConflictedBody", cond("metadata.go", "isConflicted", "return"))
+	one("updatedOnlyIfDifferent", cond("metadata.go", "asVDRMetadata", "Updated"))
+	one("historyCreated", cond("store.go", "HistorySinceVersion", "created :="))
+	one("containsCheck", cond("store.go", "Add", "contains"))
+	one("configureLoadsCache", cond("store.go", "Configure", "loadConflictedDocuments"))
+
+	// digest of every function the model mirrors (normalised body text): an edit to any of them must be looked at
+	var dig [][2]string
+	for _, spec := range []struct {
+		file  string
+		funcs []string
+	}{
+		{"event.go", []string{"before", "equal", "insert", "contains"}},
+		{"writer.go", []string{"writeEventList", "writeDocument", "writeLatest", "applyFrom", "incrementDocumentCount", "applyEvent", "applyDocument", "isDeactivated"}},
+		{"store.go", []string{"Configure", "Add", "Resolve", "Iterate", "loadConflictedDocuments", "addCachedConflict", "removeCachedConflict", "Conflicted", "ConflictedCount", "DocumentCount", "matches", "latestNonDeactivatedRequested", "HistorySinceVersion"}},
+		{"reader.go", []string{"readDocument", "readDocumentFromEvent", "readMetadata", "readEventList"}},
+		{"metadata.go", []string{"asVDRMetadata", "isConflicted"}},
+		{"merge.go", []string{"mergeDocuments", "mergeBasics", "mergeKeys", "mergeControllers", "mergeServices", "verificationMethodSort", "keyAgreementSort", "assertionSort", "authenticationSort", "capabilityInvocationSort", "capabilityDelegationSort", "controllerSort", "serviceSort", "contextSort"}},
+		{"finder.go", []string{"Find"}},
+	} {
+		for _, fn := range spec.funcs {
+			fd := funcDecl(files[spec.file], fn)
+			d := "MISSING"
+			if fd != nil {
+				sum := sha256.Sum256([]byte(c10Src(fsets[spec.file], fd.Type) + " " + c10Src(fsets[spec.file], fd.Body)))
+				d = fmt.Sprintf("%x", sum[:6])
+			}
+			dig = append(dig, [2]string{spec.file + ":" + fn, d})
+		}
+	}
+	l.def("modelledSourceDigests", "List (String × String)", c10PairList(dig), dig)
 }
